@@ -210,15 +210,22 @@ func (st *State) makeChan(x *ssa.MakeChan) Value {
 	sz := st.val(x.Size)
 	cp := st.heapGet("CH_cap", ArraySort(SInt, SInt))
 	st.heapSet("CH_cap", ArraySort(SInt, SInt), Store(cp, ref, sz.Tm))
+	// nothing has been sent to or received from a new channel
+	for _, dir := range []string{"NCS", "NCR"} {
+		n := chanCounterName(dir, x.Type())
+		h := st.heapGet(n, ArraySort(SInt, SInt))
+		st.heapSet(n, ArraySort(SInt, SInt), Store(h, ref, IntLit(0)))
+	}
 	return Value{T: x.Type(), Tm: ref}
 }
 
 func (st *State) chanSend(x *ssa.Send) {
 	ch := st.val(x.Chan)
+	st.chanTypeFact(ch)
 	st.val(x.X)
 	st.sendCheck(ch, x.Pos())
 	st.blockingCheck(x.Pos(), "blocking send")
-	st.countChan("NCS", ch.Tm, TTrue)
+	st.countChan("NCS", ch, TTrue)
 }
 
 func (st *State) sendCheck(ch Value, pos token.Pos) {
@@ -230,22 +237,62 @@ func (st *State) sendCheck(ch Value, pos token.Pos) {
 
 func (st *State) chanRecv(x *ssa.UnOp, ch Value) Value {
 	el := elemOf(ch.T)
+	st.chanTypeFact(ch)
 	v := st.symbolicValue("recv", el)
 	st.blockingCheck(x.Pos(), "blocking receive")
 	if x.CommaOk {
 		ok := st.eng().fresh("recv_ok", SBool)
-		st.countChan("NCR", ch.Tm, ok)
+		st.countChan("NCR", ch, ok)
 		return Value{T: x.Type(), Tup: []Value{v, {T: types.Typ[types.Bool], Tm: ok}}}
 	}
-	st.countChan("NCR", ch.Tm, TTrue)
+	st.countChan("NCR", ch, TTrue)
 	return v
 }
 
+// chanTypeFact: channels of different element types are different objects (chtype(ref) = id of the element type)
+func (st *State) chanTypeFact(ch Value) {
+	if ch.T == nil || ch.Tm.IsZero() {
+		return
+	}
+	ct, ok := types.Unalias(ch.T).Underlying().(*types.Chan)
+	if !ok {
+		return
+	}
+	e := st.eng()
+	e.chanMu.Lock()
+	if e.chanTypeIDs == nil {
+		e.chanTypeIDs = map[string]int{}
+	}
+	k := ct.Elem().String()
+	id, have := e.chanTypeIDs[k]
+	if !have {
+		id = len(e.chanTypeIDs) + 1
+		e.chanTypeIDs[k] = id
+	}
+	e.chanMu.Unlock()
+	e.declare("chtype", "(declare-fun chtype (Int) Int)")
+	st.assume(Or(Eq(ch.Tm, IntLit(0)), Eq(app(SInt, "chtype", ch.Tm), IntLit(int64(id)))))
+}
+
 // countChan: ghost counters of successful receives (NCR) and sends (NCS) per channel
-func (st *State) countChan(name string, ch Term, ok Term) {
+func (st *State) countChan(dir string, chv Value, ok Term) {
 	sort := ArraySort(SInt, SInt)
+	name := chanCounterName(dir, chv.T)
+	ch := chv.Tm
 	h := st.heapGet(name, sort)
 	st.heapSet(name, sort, Store(h, ch, Add(Select(h, ch), Ite(ok, IntLit(1), IntLit(0)))))
+}
+
+// chanCounterName: receive/send counters are kept per element type (channels of different element types are different
+// objects, and a callee's effect on the counters is havocked per element type)
+func chanCounterName(dir string, chT types.Type) string {
+	el := "any"
+	if chT != nil {
+		if ct, ok := types.Unalias(chT).Underlying().(*types.Chan); ok {
+			el = sanitize(ct.Elem().String())
+		}
+	}
+	return dir + "_" + el
 }
 
 // blockingCheck: functions flagged nonblocking must not contain a channel operation that can block
@@ -288,14 +335,15 @@ func (st *State) selectOp(x *ssa.Select) bool {
 	}
 	for i, s := range x.States {
 		ch := st.val(s.Chan)
+		st.chanTypeFact(ch)
 		chosen := Eq(idx, IntLit(int64(i)))
 		if s.Dir == types.RecvOnly {
 			tup = append(tup, st.symbolicValue("sel_recv", elemOf(ch.T)))
-			st.countChan("NCR", ch.Tm, And(chosen, selOk))
+			st.countChan("NCR", ch, And(chosen, selOk))
 		} else {
 			st.val(s.Send)
 			st.sendCheck(ch, s.Pos)
-			st.countChan("NCS", ch.Tm, chosen)
+			st.countChan("NCS", ch, chosen)
 		}
 	}
 	fr.regs[x] = Value{T: x.Type(), Tup: tup}
